@@ -152,6 +152,18 @@ impl StateMachine<'_> {
         Ok(handled_line)
     }
 
+    /// A hunk header is written when the first line of its hunk arrives. Write it now if it is
+    /// still waiting: the hunk has no lines (the input ends, or the next line is not a hunk line).
+    pub fn emit_pending_hunk_header_line(&mut self) -> std::io::Result<()> {
+        if let State::HunkHeader(diff_type, parsed_hunk_header, line, raw_line) =
+            &self.state.clone()
+        {
+            self.emit_hunk_header_line(parsed_hunk_header, line, raw_line)?;
+            self.state = State::HunkZero(diff_type.clone(), None);
+        }
+        Ok(())
+    }
+
     /// Emit the hunk header, with any requested decoration.
     pub fn emit_hunk_header_line(
         &mut self,
